@@ -94,7 +94,7 @@ class Profiles:
         'time': r'0|{num}m?s',
         'frequency': r'0|{num}k?Hz',
         'percentage': r'{num}%',
-        'shadow': '(inset)?{w}{length}{w}{length}{w}{length}?{w}{length}?{w}{color}?',
+        'shadow': r'(inset\s+)?{length}\s+{length}(\s+{length}){0,2}(\s+{color})?',
     }
 
     def __init__(self, log=None):
